@@ -31,9 +31,12 @@ struct Config {
 	int fiemap_mode = 1;
 	int scan_order = 0;           // 0 default(physical) 1 inode 2 alpha 3 dir
 	bool skip_fallocate = false;
+	char parity_prefix = 'p';     // top-level directories of the parity files: <prefix><level>s<split>
+	std::vector<std::string> extra_tops; // further top-level directories to create and register as devices (twin configurations)
+	std::map<std::string, int64_t> budgets; // full-disk fault: byte budget per top-level directory
 
 	unsigned block_size() const { return (unsigned)block_kib * 1024; }
-	std::string parity_top(int level, int split) const { return strf("p%ds%d", level, split); }
+	std::string parity_top(int level, int split) const { return strf("%c%ds%d", parity_prefix, level, split); }
 	std::string parity_rel(int level, int split) const { return parity_top(level, split) + "/parity"; }
 	static const char* level_name(int l, bool z)
 	{
@@ -152,6 +155,7 @@ struct Sandbox {
 	void setup();                 // create dirs, devices, conf
 	void write_conf();
 	void register_devices();
+	void register_devices_keep_vinos(); // re-read budgets / uuids of the device table without forgetting inodes and paths
 	std::string abs(const std::string& rel) const { return root + "/" + rel; }
 	const DiskCfg* disk(const std::string& name) const;
 
